@@ -4,9 +4,9 @@ type-hinting and to keep the code more expressive & readable.
 """
 
 import sys
-from dataclasses import dataclass
+from dataclasses import dataclass, field, replace
 from textwrap import indent
-from typing import Any, Type, TypeVar, Union, cast
+from typing import Any, Optional, Type, TypeVar, Union, cast
 
 from x690 import decode
 from x690.types import Integer, OctetString, Sequence, X690Type
@@ -230,6 +230,10 @@ class Message:
     security_parameters: bytes
     #: The "old-style" PDU (either plain or encrypted)
     scoped_pdu: Union[OctetString, ScopedPDU]
+    #: For messages that were received from the network: the bytes exactly as
+    #: they were received. The message digest is defined over those, and not
+    #: over a (possibly differently encoded) re-serialisation.
+    raw: Optional[bytes] = field(default=None, compare=False, repr=False)
 
     def __bytes__(self) -> bytes:
         spdu: X690Type[Any]
@@ -316,7 +320,8 @@ class Message:
             if isinstance(message[3], OctetString)
             else PlainMessage
         )
-        return cls.from_sequence(message)  # type: ignore
+        output = cls.from_sequence(message)  # type: ignore
+        return replace(output, raw=data)  # type: ignore
 
     def pretty(self, depth: int = 0) -> str:
         """
